@@ -240,7 +240,13 @@ def r4(run):
 def r5(run):
     hb = C.body_or_fail(run, C.HEAD)
     fm = q.live_calls(hb, "core::iter::traits::iterator::Iterator::find_map")
-    run.exact("find_map in Store::head", len(fm), 1, hb.sp)
+    if not fm:
+        # the same thing spelled `.filter_map(f).next()`
+        for n in q.live_calls(hb, "core::iter::traits::iterator::Iterator::next"):
+            inner = strip(n.arg(0))
+            if inner[0] == "call" and inner[1].fn == "core::iter::traits::iterator::Iterator::filter_map":
+                fm.append(inner[1])
+    run.exact("first-hit scans (find_map / filter_map(..).next()) in Store::head", len(fm), 1, hb.sp)
     if not fm:
         return
     c = fm[0]
